@@ -111,10 +111,46 @@ impl PhysicalOperator for UnionExec {
 
         // Chain every input partition lazily: `then` opens a partition only
         // when the consumer has drained the previous one.
+        let union_schema = self.schema.clone();
         let chained = stream::iter(self.all_input_partitions())
             .then(|(input, p)| async move { input.execute(p).await })
-            .try_flatten();
+            .try_flatten()
+            // The union's columns are named after its FIRST input (`schema()`),
+            // but a batch from a later input still carries that input's own
+            // names. Consumers that take the schema from the data (the `/sql`
+            // and Flight encoders, CSV/JSON headers) would otherwise label
+            // `SELECT id … UNION ALL SELECT k …` with `k`.
+            .map_ok(move |batch| relabel(&union_schema, batch));
 
         Ok(Box::pin(chained))
+    }
+}
+
+/// Rename `batch`'s columns to the union's names, keeping each column's own
+/// type and nullability (only the label is wrong, the data is not).
+fn relabel(union_schema: &SchemaRef, batch: arrow::record_batch::RecordBatch) -> arrow::record_batch::RecordBatch {
+    let own = batch.schema();
+    if own.fields().len() != union_schema.fields().len()
+        || own
+            .fields()
+            .iter()
+            .zip(union_schema.fields())
+            .all(|(b, u)| b.name() == u.name())
+    {
+        return batch;
+    }
+    let fields: Vec<arrow::datatypes::Field> = own
+        .fields()
+        .iter()
+        .zip(union_schema.fields())
+        .map(|(b, u)| b.as_ref().clone().with_name(u.name()))
+        .collect();
+    let renamed = Arc::new(arrow::datatypes::Schema::new_with_metadata(
+        fields,
+        own.metadata().clone(),
+    ));
+    match arrow::record_batch::RecordBatch::try_new(renamed, batch.columns().to_vec()) {
+        Ok(b) => b,
+        Err(_) => batch,
     }
 }
